@@ -1,5 +1,6 @@
 import WellenModel.Proofs.VcdLex
 import WellenModel.Proofs.Canon
+import WellenModel.Proofs.EvOps
 /-!
 # C01 — VCD value changes are reported faithfully
 
@@ -10,8 +11,13 @@ Model: `Model/VcdBody.lean` (parse_body, parse_first_token, VcdEncoder, id_to_in
   not matter, and nothing but the listed token classes produces events;
 * the kind stored with a value is the smallest sufficient one and the characters rendered are the
   lower-cased characters written (`C01_chars`, via C04/C06 lemmas over the generated tables).
-The composition with the store (events ↦ loaded changes = `canon`) is tied to `Spec.run` by the
-differential run (see C04 for what is proved about the store).
+* a successful single-threaded load IS the store run on the operations its tokens denote
+  (`C01_load_is_store_run`: identifier codes resolved, the implicit time 0 of a body that starts
+  with a value inserted), and its time table is the strictly increasing list of the `#` tokens
+  (`C01_time_table`); `C01_later_chunk`: a later chunk of a multi-threaded load drops the values
+  in front of its first timestamp and is otherwise the same run.
+What the store makes of those operations is the subject of C02 / C04 / C06; the composition
+"loaded changes = `canon`" is tied to `Spec.run` by the differential run.
 -/
 namespace Wellen.VcdBody
 open Wellen.Bits
@@ -52,7 +58,35 @@ theorem C01_time_tokens (tok : List Nat) (t : Nat) (h : parseFirst tok = .time t
           · simp only [h4, ↓reduceIte] at h
             split at h <;> cases h
 
+/-- a body that loads (single-threaded) is the store run on the operations of its tokens -/
+theorem C01_load_is_store_run (c : Store.Codec) (d : Decls) (rm : RealMap) (body : List Nat) (enc : Store.Enc)
+    (h : readValues c d rm body .single = .ok enc) :
+    ∃ evs ops, tokenSpec body = .ok evs ∧ opsOfEvs d rm (implicitZero evs) = some ops ∧
+      Spec.runOps c (Store.newEnc d.sigTypes) ops = some enc := by
+  simp only [readValues] at h
+  obtain ⟨evs, ops, hp, ho, hr⟩ := readStream_first_ok c d rm body _ false enc h
+  rw [parseBody_stop_irrelevant body (body.length - 1) false (by omega), C01_lexing] at hp
+  exact ⟨evs, ops, hp, ho, hr⟩
+
+/-- ... and its time table is the list of timestamp tokens greater than all earlier ones (with a leading 0 when the body starts
+with a value change) -/
+theorem C01_time_table (c : Store.Codec) (d : Decls) (rm : RealMap) (body : List Nat) (enc : Store.Enc)
+    (h : readValues c d rm body .single = .ok enc) :
+    ∃ evs, tokenSpec body = .ok evs ∧ (Store.finish c enc).2 = Spec.strictPrefixMax (evTimes (implicitZero evs)) := by
+  obtain ⟨evs, hp, ht⟩ := single_load_time_table c d rm body enc h
+  rw [C01_lexing] at hp
+  exact ⟨evs, hp, ht⟩
+
+/-- a later chunk of a multi-threaded load: the values in front of its first timestamp belong to its predecessor -/
+theorem C01_later_chunk (c : Store.Codec) (d : Decls) (rm : RealMap) (e : Store.Enc) (evs : List Ev) :
+    (applyEvs c d rm { enc := e, isFirst := false } evs).map (·.enc) =
+      (opsOfEvs d rm (fromFirstTime evs)).bind (Spec.runOps c e) :=
+  applyEvs_later c d rm e evs
+
 /-! non-vacuity: a small body through both sides -/
+example : opsOfEvs { useMap := false, mapIds := [], varSig := [], sigTypes := [] } [] (implicitZero [.value [49] [33], .time 5]) =
+    some [.time 0, .vcd 0 [49] none, .time 5] := by rfl
+
 example : parseBody none [10, 35, 53, 10, 49, 33, 10, 98, 49, 48, 32, 34, 10] =
     .ok [.time 5, .value [49] [33], .value [98, 49, 48] [34]] := by decide
 example : tokenSpec [10, 35, 53, 10, 49, 33, 10, 98, 49, 48, 32, 34, 10] =
